@@ -11,7 +11,7 @@
 //!        => ok \t <hex schema SDL> \t <pointer table> | diag \t <kinds> | panic \t <hex message>
 //! c09 \t <artifact path>
 //!        => <hex file content> \t v:<hex string value under node> | e:<why>      (or `missing`)
-//! graph
+//! casegraph
 //!        => <graph wire (graphwire.rs)> | e:<hex message>
 //! c25 \t <entrypoint artifact path>
 //!        => <n> (\t <hex trail> = <hex selected artifact | !missing | entry:…>)*
@@ -239,13 +239,13 @@ fn lines_for_case(engine: &str, i: u64, tag: &str, spec: &str, r: &mut Rng) -> V
             }
         }
         "c25" => {
-            lines.push("graph".to_string());
+            lines.push("casegraph".to_string());
             for e in entrypoints {
                 lines.push(format!("c25\t{e}"));
             }
         }
         "c10" => {
-            lines.push("graph".to_string());
+            lines.push("casegraph".to_string());
             for e in entrypoints {
                 for shape in ["full", "random", "random", "sparse"] {
                     lines.push(format!("c10\t{e}\t{}\t{shape}", r.next() % 1_000_000));
@@ -302,7 +302,7 @@ fn main() {
                     None => "bad-spec".to_string(),
                 }
             }
-            "c09" | "graph" | "c25" | "c10" => {
+            "c09" | "casegraph" | "c25" | "c10" => {
                 let Some(c) = current.as_mut() else { return "nocase".to_string() };
                 if !c.outcome.result.is_ok() {
                     return "notcompiled".to_string();
@@ -310,12 +310,12 @@ fn main() {
                 let n = node.get_or_insert_with(|| Node::spawn("ops_eval.mjs", &[]));
                 match f[0] {
                     "c09" => c09_answer(c, n, f.get(1).copied().unwrap_or("")),
-                    "graph" => graph_answer(c, n),
+                    "casegraph" => graph_answer(c, n),
                     "c25" => c25_answer(c, n, f.get(1).copied().unwrap_or("")),
                     _ => {
-                        let g = ensure_graph(c, n).clone();
+                        let values = ensure_values(c, n).clone();
                         let rtn = rt.get_or_insert_with(|| Node::spawn("ops_runtime.mjs", &["/repo/libs/isograph-react/src/core"]));
-                        resp::c10_answer(c, &g, rtn, &f)
+                        resp::c10_answer(c, &values, rtn, f)
                     }
                 }
             }
